@@ -120,6 +120,9 @@ func (e *Engine) callStatic(st *State, fr *Frame, res ssa.Value, callee *ssa.Fun
 		e.applyContract(st, fr, res, callee, con, args, env, pos)
 		return nil, true
 	}
+	if fr != nil && fr.fn == e.fn {
+		e.unboundedRecursion(st, fr, callee, pos)
+	}
 	// 3. inline
 	if e.canInline(callee, st) {
 		return e.inline(st, fr, res, callee, env, args)
@@ -1064,6 +1067,11 @@ func (e *Engine) applyContract(st *State, fr *Frame, res ssa.Value, callee *ssa.
 			e.specErrors, e.notes = e.specErrors[:nerr], e.notes[:nnote]
 			continue
 		}
+		if len(c.Props) > 0 && len(e.props) > 0 && !e.propActive(c.Props) {
+			// a precondition that belongs to another property's contract block pairs with that block's
+			// postconditions; it is that property's check that demands it at every call site
+			continue
+		}
 		if c.Tmpl && c.Optional && len(c.Props) > 0 && !e.sharesProp(c.Props) {
 			// the optional precondition of a sweep template belongs to another property's sweep (it says
 			// what that sweep assumes about receivers); the function verified here relies on none of its
@@ -1147,7 +1155,9 @@ func (e *Engine) applyContract(st *State, fr *Frame, res ssa.Value, callee *ssa.
 		}
 		nerr, nnote := len(e.specErrors), len(e.notes)
 		g := e.evalSpecBool(st, pre, c.Expr, env)
-		if c.Optional && len(e.specErrors) > nerr {
+		foreign := len(c.Props) > 0 && len(e.props) > 0 && !e.propActive(c.Props)
+		if (c.Optional || foreign) && len(e.specErrors) > nerr {
+			// (a postcondition of another property's block that cannot be evaluated here is not used)
 			e.specErrors, e.notes = e.specErrors[:nerr], e.notes[:nnote]
 			continue
 		}
@@ -1682,6 +1692,7 @@ func (e *Engine) variantCheck(st *State, fr *Frame, callee *ssa.Function, con *C
 	}
 	rd, cd := e.con.get("decreases"), con.get("decreases")
 	if len(rd) == 0 || len(cd) == 0 {
+		e.unboundedRecursion(st, fr, callee, pos)
 		return
 	}
 	renv := e.rootEnv(e.entry, nil)
@@ -1782,4 +1793,18 @@ func (e *Engine) sharesProp(ps []string) bool {
 		}
 	}
 	return false
+}
+
+// unboundedRecursion: under `recursion-bounded`, a call that can come back to the function being
+// verified must be covered by a measure (`decreases` on both ends); otherwise it is a failed K4
+// obligation - nothing bounds the recursion.
+func (e *Engine) unboundedRecursion(st *State, fr *Frame, callee *ssa.Function, pos token.Pos) {
+	if e.con == nil || !e.con.has("recursion-bounded") || callee == nil {
+		return
+	}
+	if callee != e.fn && !e.P.mayReach(callee, map[*ssa.Function]bool{e.fn: true}) {
+		return
+	}
+	name, where := e.siteName(fr, "variant", pos, shortFn(callee))
+	e.oblige(st, name, "K4", "this call can re-enter "+shortFn(e.fn)+" and no termination measure covers the cycle", "false", where, e.con.get("recursion-bounded")[0].Props)
 }
